@@ -342,7 +342,9 @@ def _module_config(cfg, config_class):
   section = cfg.get(config_class.name())
   if section is None:
     return None
-  return config_class.parse(section)
+  # the reference pipeline parses a private copy of the section every time (a filter may be named twice): it does not depend on
+  # whether parsing leaves its argument alone
+  return config_class.parse(copy.deepcopy(section))
 
 
 def ref_convert(job, in_path, skip_unknown_filters=True):
